@@ -151,7 +151,9 @@ PROPS = {
         lemmas=[],
         bounded=[dict(kind="contract_search", name="Resampler.resample on the real event loop (scripted timer/helpers)",
                       target=f"{RS}:Resampler.resample", contract_module="contracts.ts_resampler", budget_s=6,
-                      thorough_budget_s=40)],
+                      thorough_budget_s=40),
+                 dict(kind="native_script", name="MovingWindow hands its ResamplerConfig to its resampler unchanged",
+                      module="native.explore_mw_config")],
         level="proof",
         explanation="_calculate_window_end: integer (microsecond) arithmetic proof that the first window end is after now, at "
                     "most two periods away, on the align_to grid, and that the timer delay is the gap to the grid. "
@@ -334,7 +336,9 @@ PROPS = {
         contracts=[f"{RBUF}.normalize_timestamp", f"{RBUF}.wrap"],
         lemmas=[],
         bounded=[dict(kind="native_script", name="OrderedRingBuffer vs abstract sliding time-indexed map",
-                      module="native.explore_ringbuffer")],
+                      module="native.explore_ringbuffer"),
+                 dict(kind="native_script", name="MovingWindow (at / window / timestamps, alignment on and off the epoch grid) vs the same map",
+                      module="native.explore_movingwindow")],
         level="other",
         explanation="PROVED (deductive, unbounded): normalize_timestamp rounds to the nearest grid slot, ties to the even slot, "
                     "fixed on aligned timestamps; wrap() is the slot modulo the capacity. BOUNDED (never counted as proved): "
@@ -344,7 +348,7 @@ PROPS = {
         assumptions=[EXTRACTION, "sampling periods with an even number of microseconds (timedelta / 2 is then exact)",
                      "gap-list maintenance (_update_gaps/_cleanup_gaps/_remove_gap: in-place mutation of aliased Gap objects "
                      "while deleting) and window assembly over numpy/list slices are outside the verifier's subset: bounded only",
-                     "MovingWindow's thin wrappers not under contract"],
+                     "MovingWindow (alignment pass-through, at(), window(), oldest/newest) only by the second bounded explorer"],
     ),
     "C20": dict(
         modules=["ds_source"],
